@@ -919,13 +919,20 @@ impl HeaderBlock {
             }};
         }
 
+        // A dynamic table size update is only allowed before the first field
+        // of the block, whichever fragment that field arrived in.
+        let can_resize = !malformed
+            && !self.is_over_size
+            && self.fields.is_empty()
+            && self.pseudo == Pseudo::default();
+
         let mut cursor = Cursor::new(src);
 
         // If the header frame is malformed, we still have to continue decoding
         // the headers. A malformed header frame is a stream level error, but
         // the hpack state is connection level. In order to maintain correct
         // state for other streams, the hpack decoding process must complete.
-        let res = decoder.decode(&mut cursor, |header| {
+        let res = decoder.decode_fragment(&mut cursor, can_resize, |header| {
             use crate::hpack::Header::*;
 
             match header {
